@@ -123,11 +123,11 @@ def run(ctx):
     stats = {n: st for n, st, v, tp in res}
     vals = {n: v for n, st, v, tp in res}
     nrej = sum(v["nbad"] for v in vals.values())
-    if not ok:
+    if not ok and not (goodbad and nrej):
         raise vlib.Infra("binding self-test of PureTrace.tla failed: %s" % why)
     if goodbad and not nrej:
         raise vlib.Infra("binding self-test: uncorrupted prefix rejected but the full run is clean")
-    log("[C02] binding self-test: corrupted trace rejected with %s" % sorted(got))
+    log("[C02] binding self-test: corrupted trace rejected with %s" % sorted(got or []))
     for n, st, v, tp in res:
         if st.get("crash") and not any(b["reason"] == "crash" for b in v["bad"]):
             raise vlib.Infra("%s child crashed without a crash event: %s" % (n, st["crash"]))
